@@ -372,7 +372,7 @@ func genC03(ctx *fw.Ctx) []fw.Case {
 	}
 	cases = append(cases, fw.Case{ID: "constants", Run: c03Constants})
 	cases = append(cases, fw.Case{ID: "module-level", Run: c03ModuleLevel})
-	n := ctx.Pick(160, 4000)
+	n := ctx.Pick(600, 12000)
 	rng := ctx.Rand("c03exec")
 	for i := 0; i < n; i++ {
 		seed := rng.Int63()
